@@ -1,6 +1,6 @@
 (* C04 Every PURL value handed out is valid and normalised *)
 Load "coq/props/Hdr".
-From PM Require Import DecQual ParseInv BuildG BuildGen C01P C04 Builder Assemble Exec.
+From PM Require Import DecQual ParseInv BuildG BuildGen C01P C04 Builder Assemble Exec Alpha.
 Lemma src_cfg_ok : cfg_ok cfg. Proof. sc. Qed.
 (* the invariant, for ANY type parameter whose hook hands back a qualifier collection that the collection's API can produce
    (hook_sane; otherwise the hook edits the parts arbitrarily): parser and builder *)
@@ -44,3 +44,10 @@ Definition ex1 : bytes := map nb [112;107;103;58;78;80;77;47;37;52;48;97;47;98;6
 Definition ex1_res := Eval vm_compute in parse cfg G ex1.
 Example C04_nonvacuous : parse cfg G ex1 = ex1_res /\ match ex1_res with Ok (t, p) => q_get cfg (p_quals p) s_checksum <> None | Err _ => False end.
 Proof. split; [vm_compute; reflexivity|vm_compute; discriminate]. Qed.
+(* the type alphabet read from the source is the documented one: letters, digits, '.', '+', '-' *)
+Theorem C04_type_alphabet_is_the_documented_one : forall t, valid_type cfg t = doc_valid_type t.
+Proof. apply valid_type_is_documented. vm_compute. reflexivity. Qed.
+Print Assumptions C04_type_alphabet_is_the_documented_one.
+Theorem C04_key_alphabet_is_the_documented_one : forall k, valid_key cfg k = doc_valid_key k.
+Proof. apply valid_key_is_documented. vm_compute. reflexivity. Qed.
+Print Assumptions C04_key_alphabet_is_the_documented_one.
